@@ -82,11 +82,11 @@ func findCall(f *ssa.Function, name string) *ssa.Call {
 
 // xorLoop: finds `dst[off+i] ^= src[soff+i]` for i in [0,bound): returns canonical parts
 type xorLoopInfo struct {
-	dst, src         ssa.Value
-	dstOff, srcOff   int64
-	bound            ssa.Value
-	init, step       int64
-	store            *ssa.Store
+	dst, src       ssa.Value
+	dstOff, srcOff int64
+	bound          ssa.Value
+	init, step     int64
+	store          *ssa.Store
 }
 
 func findXorLoops(f *ssa.Function) []xorLoopInfo {
